@@ -28,7 +28,7 @@ RULE = ("lock-step differential: every operation of a history (awaited call, fai
 ASSUMPTIONS = ["functools.lru_cache (C implementation of the running 3.12 interpreter) is the reference",
                "cache_discard has no stdlib twin: reference is the cross-validated model"]
 EXHAUSTIVE = {"quick": False, "thorough": False}
-N_RANDOM = {"quick": 16000, "thorough": 500000}
+N_RANDOM = {"quick": 60000, "thorough": 3000000}
 
 VALUES = [0, 1, 2, ["f", "1.0"], True, False, "1", "a", None, ["T", 1, 2], ["T", ["f", "1.0"], 2], ["f", "0.0"],
           ["f", "-0.0"]]
